@@ -104,6 +104,9 @@ class Dim:
                 return self._dim(("bin", "Add" if "add" in nm else "Sub", a[0], a[1]), fn)
             if nm == "unwrap_or" and len(a) == 2:
                 return self.dim(a[0], fn)
+            if nm in ("ok_or", "ok_or_else", "branch", "ok", "map_err") and a and not t[1].local:
+                # the `?` spelling of unwrap: the payload of the success case
+                return self.dim(a[0], fn)
             if t[1].local or getattr(t[1], "res_local", False):
                 # a private helper: the dimension of its body with the arguments in place of the parameters
                 from . import canon
@@ -114,6 +117,9 @@ class Dim:
         if k in ("gamma", "phi"):
             ds = {self.dim(v, fn) for _, v in t[2]}
             return ds.pop() if len(ds) == 1 else None
+        if k == "field" and t[2] == "0" and isinstance(t[1], tuple) and t[1] and t[1][0] == "as" and \
+                t[1][2] in ("Continue", "Some", "Ok"):
+            return self.dim(t[1][1], fn)
         if k == "field" and t[2] == "num_vars":
             return "Count"
         if k == "mu":
